@@ -770,7 +770,9 @@ func (tree *MutableTree) SaveVersion() ([]byte, int64, error) {
 			}
 		}
 
-		newHash := tree.WorkingHash()
+		// (not WorkingHash: the initial-version flag has just been cleared, and the nodes of a first
+		// commit that starts at an initial version are hashed with that version, not with 1)
+		newHash := tree.root.hashWithCount(version)
 
 		if (existingRoot == nil && tree.root == nil) || (existingRoot != nil && bytes.Equal(existingRoot.hash, newHash)) { // TODO with WorkingHash
 			tree.version = version
